@@ -97,7 +97,10 @@ async fn create_consumer_group(
             .with_error_context(|error| format!("{COMPONENT} (error: {error}) - failed to create consumer group, stream ID: {}, topic ID: {}, group ID: {:?}", stream_id, topic_id, command.group_id))?;
     let consumer_group = consumer_group.read().await;
     let consumer_group_details = mapper::map_consumer_group(&consumer_group).await;
+    // The journal must record the ID that was assigned, replay cannot re-derive it.
+    let assigned_group_id = consumer_group.group_id;
     drop(consumer_group);
+    command.group_id = Some(assigned_group_id);
 
     let system = system.downgrade();
     system
